@@ -287,3 +287,7 @@ where
 
     Ok(())
 }
+
+#[cfg(kani)]
+#[path = "/verif/hooks/core/sna.rs"]
+mod verif_hooks;
